@@ -49,6 +49,10 @@ def run_one(spec):
                 step[1](sc)
         res["events"] = sc.events()
         res["world"] = sc.world.root
+        # an exception inside the mock CA is a fault of the tooling, never an observation about the daemon
+        he = [e["harness_error"] for e in res["events"] if e.get("harness_error")]
+        if he:
+            res["error"] = "the mock CA raised: %s" % he[0][:600]
         res["tables"] = {n: ca.table() for n, ca in sc.cas.items()}
     except Exception as ex:
         res["error"] = "%r\n%s" % (ex, traceback.format_exc())
